@@ -475,4 +475,114 @@ example : (read (χ := Nat) none [(1, .atom (.str "b")), (2, .atom (.str "a")), 
     (read (χ := Nat) none [(7, .atom (.str "a")), (8, .atom (.str "b"))]).toOption.map (·.map (·.actions)) =
       some [[.str "a", .str "b"], [.str "a", .str "b"]] := by decide
 
+
+/-! ## Phase 4 -/
+
+/-! ### text sources WITH `take`: reader (C12) → Reservoir (C09, seed 1) → LabelRows → read, all inside the model -/
+
+/-- the new pipelines without `take` are the phase-2 ones -/
+theorem csvSimT_none (delim : Nat) (hasHeader : Bool) (lc : LabelCol) (given : Option LType) (lines : List C12.Text) :
+    csvSimT delim hasHeader lc given none lines = csvSim delim hasHeader lc given lines :=
+  csvSimT_none' delim hasHeader lc given lines
+
+theorem libsvmSimT_none (given : Option LType) (lines : List C12.Text) : libsvmSimT given none lines = libsvmSim given lines :=
+  libsvmSimT_none' given lines
+
+theorem manikSimT_none (given : Option LType) (lines : List C12.Text) : manikSimT given none lines = manikSim given lines :=
+  manikSimT_none' given lines
+
+/-- CSV with `take`: the interactions meet the statement for the reservoir's sample of the written data rows (header dropped),
+split at the label column; the sample is a sub-multiset of the written rows of size `min k n` -/
+theorem end_to_end_csv_take (delim : Nat) (hd1 : delim ≠ C12.DQ) (hd2 : C12.isNl delim = false) (hasHeader : Bool)
+    (rows : List (List (Bool × C12.Text))) (hok : ∀ r ∈ rows, C12.csvRowOk r = true)
+    (ind : Int) (given : Option LType) (k : Nat) (steps : List C09.Step) (ints : List (Interaction (List Label)))
+    (h : csvSimT delim hasHeader (.index ind) given (some (k, steps)) (rows.map (C12.csvWriteRow delim)) = .ok ints) :
+    ∃ sample, C09.reservoir (some k) false (C05.normInt 1) steps
+        ((rows.map (·.map (·.2))).drop (if hasHeader then 1 else 0)) = .ok sample ∧
+      sample.Subperm ((rows.map (·.map (·.2))).drop (if hasHeader then 1 else 0)) ∧
+      sample.length = min k ((rows.map (·.map (·.2))).drop (if hasHeader then 1 else 0)).length ∧
+      ∃ exs, DenseSplit ind (sample.map (·.map textLabel)) exs ∧ MeetsStatement given exs ints :=
+  end_to_end_csv_take' delim hd1 hd2 hasHeader rows hok ind given k steps ints h
+
+theorem end_to_end_libsvm_take (rows : List C12.SvmRow) (hok : ∀ r ∈ rows, C12.svmRowOk r = true)
+    (given : Option LType) (k : Nat) (steps : List C09.Step) (ints : List (Interaction (List (C12.Text × C12.Text))))
+    (h : libsvmSimT given (some (k, steps)) (rows.map C12.svmWriteRow) = .ok ints) :
+    ∃ sample, C09.reservoir (some k) false (C05.normInt 1) steps rows = .ok sample ∧
+      sample.Subperm rows ∧ sample.length = min k rows.length ∧ MeetsStatement given (sample.map svmPair) ints :=
+  end_to_end_libsvm_take' rows hok given k steps ints h
+
+theorem end_to_end_manik_take (first : C12.Text) (rows : List C12.SvmRow) (hok : ∀ r ∈ rows, C12.svmRowOk r = true)
+    (given : Option LType) (k : Nat) (steps : List C09.Step) (ints : List (Interaction (List (C12.Text × C12.Text))))
+    (h : manikSimT given (some (k, steps)) (first :: rows.map C12.svmWriteRow) = .ok ints) :
+    ∃ sample, C09.reservoir (some k) false (C05.normInt 1) steps rows = .ok sample ∧
+      sample.Subperm rows ∧ sample.length = min k rows.length ∧ MeetsStatement given (sample.map svmPair) ints :=
+  end_to_end_manik_take' first rows hok given k steps ints h
+
+/-! ### `label_col` by header name -/
+
+/-- over a table with headers a name is the index `HeadRows` maps it to (`denseByCol` is what every dense pipeline ends in) -/
+theorem label_by_name (h : List C12.Text) (nm : C12.Text) (i : Nat) (given : Option LType) (table : List (List Label))
+    (hi : headerIndex h nm = some i) :
+    denseByCol (some h) (.name nm) given table = denseByCol (some h) (.index (i : Int)) given table :=
+  denseByCol_name' h nm i given table hi
+
+/-- CSV written with a header line: `label_col=<name>` yields exactly what `label_col=<its index>` yields (with or without
+`take`), so `end_to_end_csv`, `end_to_end_csv_xy` and `end_to_end_csv_take` hold for header names as well -/
+theorem end_to_end_csv_name (delim : Nat) (hd1 : delim ≠ C12.DQ) (hd2 : C12.isNl delim = false)
+    (hdr : List (Bool × C12.Text)) (rows : List (List (Bool × C12.Text))) (hok : ∀ r ∈ hdr :: rows, C12.csvRowOk r = true)
+    (nm : C12.Text) (i : Nat) (hi : headerIndex (hdr.map (·.2)) nm = some i)
+    (given : Option LType) (res : Option (Nat × List C09.Step)) :
+    csvSimT delim true (.name nm) given res ((hdr :: rows).map (C12.csvWriteRow delim)) =
+      csvSimT delim true (.index (i : Int)) given res ((hdr :: rows).map (C12.csvWriteRow delim)) :=
+  end_to_end_csv_name' delim hd1 hd2 hdr rows hok nm i hi given res
+
+/-- `y,f` / `a,1` / `b,2` with the label named `y` -/
+example : headerIndex [[121], [102]] [121] = some 0 ∧
+    (csvSimT 44 true (.name [121]) none none
+      ([[(false, [121]), (false, [102])], [(false, [97]), (false, [49])], [(false, [98]), (false, [50])]].map (C12.csvWriteRow 44))).toOption.map
+        (·.map (·.actions)) = some [[.str "a", .str "b"], [.str "a", .str "b"]] := by decide +kernel
+
+/-! ### whole-file ARFF (`C12.arffRead`: framing, `@data`, dense / sparse, encoders) -/
+
+/-- a whole dense ARFF file of the Weka/OpenML-style writer (C12's `arff_dense_table_roundtrip`, hypotheses as there, the file
+given up to `arffNormalize`, i.e. with any blank lines / kept terminators): the interactions are those of `LabelRows` + `read`
+over the written cells (`rowOut`), the label column given by index or by attribute name -/
+theorem end_to_end_arff_file_dense (q : Nat) (hq : q = C12.SQ ∨ q = C12.DQ) (also : Nat → Bool) (attrs : List C12.AttrW) (dkw : C12.Text)
+    (rows : List (Nat × List (Bool × C12.CellW)))
+    (hattrs : attrs ≠ []) (hok : ∀ a ∈ attrs, a.ok true = true) (hnd : (attrs.map (·.name.2)).Nodup)
+    (hdkw : C12.lowerAscii dkw = C12.kwData) (hne : rows ≠ [])
+    (hrows : ∀ r ∈ rows, C12.denseRowWOk q also r.1 (attrs.map (·.typ.enc true)) r.2 = true)
+    (hfirst : ∀ r, rows.head? = some r → C12.notBraced (C12.denseRowLine q also r.1 r.2) = true)
+    (lines : List C12.Text)
+    (hnorm : C12.arffNormalize lines = attrs.map (·.line q also) ++ dkw :: rows.map (fun r => C12.denseRowLine q also r.1 r.2))
+    (lc : LabelCol) (given : Option LType) (ints : List (Interaction (List Label)))
+    (h : arffFileSim lc given none lines = .dense (.ok ints)) :
+    ∃ table, rowsLabels (rows.map fun r => C12.rowOut (attrs.map (·.typ.enc true)) r.2) = .ok table ∧
+      denseByCol (some (attrs.map (·.name.2))) lc given table = .ok ints :=
+  end_to_end_arff_file_dense' q hq also attrs dkw rows hattrs hok hnd hdkw hne hrows hfirst lines hnorm lc given ints h
+
+/-- … hence, for an index, the statement and the (X,Y) form for the written table split at the label column
+(`dense_meets`, `dense_eq_xy` apply to `denseByCol … (.index ind)` = `simDense`) -/
+theorem end_to_end_arff_file_dense_meets (ind : Int) (hdr : Option (List C12.Text)) (given : Option LType) (table : List (List Label))
+    (ints : List (Interaction (List Label))) (h : denseByCol hdr (.index ind) given table = .ok ints) :
+    ∃ exs, DenseSplit ind table exs ∧ MeetsStatement given exs ints ∧ simPairs given none exs = .ok ints :=
+  denseByCol_index_meets' ind hdr given table ints h
+
+/- theorem end_to_end_arff_file_sparse (a whole sparse file of a canonical writer) — needs the round trip of `C12.arffRead` /
+   `sparseRows` over a whole sparse file, which C12 does not have (row level only: `arff_sparse_roundtrip_partial`).  Proved
+   under that round trip as the explicit, named hypothesis `SparseFileRoundTrip` (Lemmas/C14): -/
+theorem end_to_end_arff_file_sparse_under (lines : List C12.Text) (names : List C12.Text) (srows : List C12.SparseRow)
+    (hrt : SparseFileRoundTrip lines names srows) (lc : LabelCol) (given : Option LType)
+    (ints : List (Interaction (List (Val × Label))))
+    (h : arffFileSim lc given none lines = .sparse (.ok ints)) :
+    ∃ table, sparseTable (srows.map (·.items)) = .ok table ∧
+      MeetsStatement given (table.map (splitSparse (sparseKey names lc) (Label.atom (.num 0)))) ints :=
+  end_to_end_arff_file_sparse_under' lines names srows hrt lc given ints h
+
+/-- the hypothesis is met by a concrete sparse file (`@attribute a numeric`, `@attribute y {x,z}`, `@data`, `{0 2,1 z}`, `{1 x}`),
+whose simulation offers the levels that occur, in declared order -/
+example : (∃ names srows, SparseFileRoundTrip sparseDemo names srows) ∧
+    sparseActions (.name [121]) none sparseDemo = some [[.str "x", .str "z"], [.str "x", .str "z"]] :=
+  ⟨sparseDemo_roundtrip, sparseDemo_actions⟩
+
 end Coba.C14
